@@ -13,6 +13,7 @@ CONSTANTS
   Srvs = {1}
   Ots <- OtsOne
   Coes <- CoesOne
+  Flts <- FltsOne
   SharedContextTable = FALSE
   ExpireSessions = FALSE
   RandArgs = FALSE
